@@ -321,7 +321,7 @@ var propC14 = &modelProp{
 	nt: func(e *Env) bool {
 		return e.flags["isolation-deep-shape"] > 0 && e.flags["isolation-mutated-caller-object"] > 0
 	},
-	rule: "documents with generated shapes (nil / empty / non-empty slices and maps, pointer chains *T and **T, slices of pointers incl. nil elements, maps of slices of pointers, interface{} holding nil/scalars/maps/slices, empty slices with spare capacity, arrays of scalars, nested structs by value and pointer), cache and async on and off. After every accepted InsertOrUpdate the caller's object is mutated through reflection at every reachable location; after every op each stored object is read twice (address sets of all reachable pointers/slices/maps must be disjoint), the first copy is mutated everywhere, a third read must equal the canonical JSON recorded at store time and share nothing; the same for objects returned by All and Search.Collect; all read paths are compared with the model after every op; with the cache on a second handle reads every object from its file and the cached read must equal it. TestC14Deep repeats the store/mutate/read protocol on a second type whose containers are nested directly inside containers ([][]int, []map, map of maps, map of pointers incl. nil entries, *[]T, []*[]T, [][][]string, zero values held by interface{} slots) with cache and async on and off, and finally reads every object through a cold second handle (what reached the file must be what was stored, not what the caller turned it into). Non-trivial: a stored shape with a non-nil pointer or non-empty container at depth >= 2 and >= 1 mutated location in a caller object. Distinct by program hash.",
+	rule: "documents with generated shapes (nil / empty / non-empty slices and maps, pointer chains *T and **T, slices of pointers incl. nil elements, maps of slices of pointers, interface{} holding nil/scalars/maps/slices, empty slices with spare capacity, arrays of scalars, nested structs by value and pointer), cache and async on and off. After every accepted InsertOrUpdate the caller's object is mutated through reflection at every reachable location; after every op each stored object is read twice (address sets of all reachable pointers/slices/maps must be disjoint), the first copy is mutated everywhere, a third read must equal the canonical JSON recorded at store time and share nothing; the same for objects returned by All and Search.Collect, also when they are the very first reads of a freshly opened (cold) handle; all read paths are compared with the model after every op; with the cache on a second handle reads every object from its file and the cached read must equal it. TestC14Deep repeats the store/mutate/read protocol on a second type whose containers are nested directly inside containers ([][]int, []map, map of maps, map of pointers incl. nil entries, *[]T, []*[]T, [][][]string, zero values held by interface{} slots, arrays of pointers / slices / maps / structs with pointers) with cache and async on and off, and finally reads every object through a cold second handle (what reached the file must be what was stored, not what the caller turned it into). Non-trivial: a stored shape with a non-nil pointer or non-empty container at depth >= 2 and >= 1 mutated location in a caller object. Distinct by program hash.",
 	after: func(e *Env) {
 		// cached read == round trip through the file (second handle, cold cache)
 		if e.cfg.Async != nil {
@@ -356,6 +356,30 @@ var propC14 = &modelProp{
 
 func init() {
 	propC14.setup = func(e *Env) {
+		// the very first reads of a cold handle go through All / a scanning search; what they
+		// return is mutated at once (the checks that follow read everything again)
+		e.afterOpen = func() {
+			if len(e.m.live) == 0 {
+				return
+			}
+			var objs []sod.Object
+			var err error
+			if e.step%2 == 0 {
+				objs, err = e.db.All(&Doc{})
+			} else {
+				objs, err = e.db.Search(&Doc{}, "I16", "!=", int16(-12345)).Collect()
+			}
+			if err != nil {
+				e.failf("first read after reopen: %v", err)
+			}
+			n := 0
+			for _, o := range objs {
+				n += scramble(reflect.ValueOf(o), 0)
+			}
+			if n > 0 {
+				e.flag("isolation-mutated-first-read-of-cold-handle")
+			}
+		}
 		e.prepArg = func(arg *Doc) {
 			if respare(reflect.ValueOf(arg), 0) > 0 {
 				e.flag("empty-slice-with-spare-capacity-stored")
